@@ -551,3 +551,9 @@ Proof.
     + match goal with |- context[(?a =? ?b)%Z] => assert ((a =? b)%Z = true) as -> by lia end. reflexivity.
     + match goal with |- context[(?a =? ?b)%Z] => assert ((a =? b)%Z = false) as -> by lia end. reflexivity.
 Qed.
+
+(* non-vacuity material for props/C10.v: the RFC 6455 sample response (plus optional header lines) and one frame *)
+Definition c10_sample_resp (extra : list byte) : list byte :=
+  bs "HTTP/1.1 101 Switching Protocols" ++ crlf ++ bs "Upgrade: websocket" ++ crlf
+  ++ bs "Connection: Upgrade" ++ crlf ++ bs "Sec-WebSocket-Accept: s3pPLMBiTxaQ9kYGzzhZRbK+xOo=" ++ crlf
+  ++ bs "Sec-WebSocket-Protocol: chat" ++ crlf ++ extra ++ crlf ++ [129; 2; 104; 105].
